@@ -9,6 +9,7 @@ typedef struct {
 	int copy;          /* 0 literal, 1 copy */
 	unsigned value;    /* literal byte, or distance-1 ("offset": copy reads offset+1 back) / absolute position (LArc) */
 	unsigned len;
+	int variant;       /* LHARK: 1 = express length 514 with symbol 288 */
 } ref_cmd;
 
 /* MSB-first bit writer */
